@@ -45,7 +45,8 @@ def run_worker(job, wd, name, seed, cwd_kind, cwd_path=None):
     for c, sp in job["datasets"].items():
         src = Path(sp).parent
         for kind, table in (("data", private), ("orig", originals)):
-            dst = jd / f"{kind}{c}"
+            # (a variant "A2" is another settings file next to A's: it lives in A's directory and reads the SAME input files)
+            dst = jd / f"{kind}{c[:-1] if c.endswith('2') else c}"
             if not dst.exists():
                 shutil.copytree(src, dst)
             table[c] = str(dst / Path(sp).name) if kind == "data" else str(dst)
@@ -121,6 +122,16 @@ def main(ctx, replay=None):
                                                       ["Read", 2, "modulus_isothermal"], ["Read", 1, "tp_bulk_vrh"], ["WriteOutput", 2]]))
     behaviours.append(({"seed": "0", "cwd": "junk"}, [["Construct", 2, "B"], ["Read", 2, "tp_vp"], ["Construct", 1, "A"], ["Refill", 1], ["Read", 1, "modulus_adiabatic"],
                                                      ["Write", 1, "tp", "cij"], ["Read", 2, "modulus_isothermal"], ["Read", 1, "modulus_adiabatic"]]))
+    # the fill command under every hash seed (its filling adds several columns to A's table)
+    for sd in ("1", "2", "random"):
+        behaviours.append(({"seed": sd, "cwd": "empty" if sd != "2" else "junk"}, [["CliFill", "A"], ["CliFill", "C"], ["CliFill", "A"]]))
+    # the same files under two settings in one process, both orders, and with the files replaced in between
+    behaviours.append(({"seed": "1", "cwd": "empty"}, [["Construct", 1, "A"], ["Read", 1, "modulus_adiabatic"], ["Construct", 2, "A2"], ["Read", 2, "modulus_adiabatic"],
+                                                      ["Read", 2, "tp_modulus_isothermal"], ["WriteOutput", 2], ["WriteOutput", 1]]))
+    behaviours.append(({"seed": "2", "cwd": "junk"}, [["Construct", 1, "C2"], ["WriteOutput", 1], ["Construct", 2, "C"], ["WriteOutput", 2], ["Read", 2, "tp_vp"],
+                                                     ["Read", 1, "tp_vp"]]))
+    behaviours.append(({"seed": "0", "cwd": "empty"}, [["Construct", 1, "A2"], ["Read", 1, "modulus_isothermal"], ["Rewrite", "A", "C"], ["Construct", 2, "A"],
+                                                      ["Read", 2, "modulus_isothermal"], ["WriteOutput", 2]]))
     exports = fillspec.cached_exports(ctx)
     ctx.cov["rule"] = ("process histories (<= 6 actions on up to two calculators of two configurations) simulated by TLC, each executed in a "
                        "fresh interpreter process under its hash seed and working directory; plus `cij run` under different seeds and "
@@ -128,7 +139,8 @@ def main(ctx, replay=None):
     ctx.assumptions += ["byte identity is compared through SHA-256 digests", "shared module state = writer rules + unit registry names"]
     wd = Workdir()
     try:
-        dsA = system_dataset(rng, exports, "hexagonal", lattice=True, nq=3, nat=2)
+        # (A supplies a sufficient PROPER subset of the hexagonal components: the filling adds several columns)
+        dsA = system_dataset(rng, exports, "hexagonal", lattice=True, nq=3, nat=2, minimal=True)
         dsB = free_dataset(rng, extra_shear=4, lattice=False, nq=2, nat=1)
         import copy
         dsC = copy.deepcopy(dsA)                       # same shapes as A (NT, NTV, nq, np, keys), different temperatures and spectrum
@@ -143,13 +155,22 @@ def main(ctx, replay=None):
             d = wd.sub(f"data{c}")
             ds.fit_pressure_window(d)
             datasets[c] = str(ds.write(d))
+            if c in ("A", "C"):
+                # the variant: the same files calculated under other settings (same grids sizes, interpolation and order; another
+                # volume_ratio, i.e. another volume grid of the same length) - a second settings file in the same directory
+                import yaml
+                alt = yaml.safe_load(Path(datasets[c]).read_text())
+                alt["qha"]["settings"]["volume_ratio"] = 1.3 if float(alt["qha"]["settings"].get("volume_ratio", 1.2)) < 1.25 else 1.15
+                (d / "settings_alt.yaml").write_text(yaml.safe_dump(alt))
+                datasets[c + "2"] = str(d / "settings_alt.yaml")
+                systems[c + "2"] = systems[c]
         base_job = {"datasets": datasets, "systems": systems}
         # ---- reference run: one fresh process, seed 0, empty directory ---------------------------------------
         # (one fresh process PER configuration: a reference must not itself have a history)
         ref_ev = []
-        for c in ("A", "B", "C"):
+        for c in ("A", "B", "C", "A2", "C2"):
             ra = [["Construct", 1, c], ["Read", 1, "static_table"]] + [["Read", 1, q] for q in QUANT] + [["Write", 1, b, k] for b, k in WRITES] \
-                + [["WriteOutput", 1]] + ([["CliRun", "A"]] if c == "A" else [])
+                + [["WriteOutput", 1]] + ([["CliRun", c], ["CliFill", c]] if c in ("A", "C") else [])
             ev, rc, err = run_worker(dict(base_job, actions=ra, mode="ref"), wd, f"ref{c}", 0, "empty")
             if rc != 0 or len(ev) < 10:
                 # does the same history succeed when started inside the data directory?  Then the calculation depends on the working directory.
